@@ -38,7 +38,7 @@ def Label.harmless : Label → Bool
   | .s (.fwd _) | .s (.exit _) | .s .lock | .s .unlock => false
   | _ => true
 
-theorem strip_init (v f n b t0) : strip (init v f n b t0) = init v f n b t0 := by simp [strip, init, stripSpc]
+theorem strip_init (v g f n b t0) : strip (init v g f n b t0) = init v g f n b t0 := by simp [strip, init, stripSpc]
 
 theorem stripSpc_off {p : SPC} : stripSpc p = .off ↔ p = .off := by cases p <;> simp [stripSpc]
 theorem stripSpc_cancelled {p : SPC} : stripSpc p = .cancelled ↔ p = .cancelled := by cases p <;> simp [stripSpc]
@@ -65,7 +65,7 @@ theorem strip_kept {s s' : St} {l : Label} (hl : l.erased = false) (hs : step s 
     obtain ⟨p, q, hp, hn, hgT, hgO, rfl⟩ := w_step_facts (step_w hs)
     rw [step_of_w hx']
     have hp' : (strip s).ws[i]? = some p := hp
-    have hn' : wNext a p (tsAt (strip s) i == .canceled) = some q := hn
+    have hn' : wNext (strip s).g a p (tsAt (strip s) i == .canceled) = some q := hn
     have hg : (a = .lockT → (strip s).thd = .none) ∧ (a = .lock → (strip s).own = .none) := by
       refine ⟨fun ha => ?_, hgO⟩
       show (if s.thd = .s then Own.none else s.thd) = .none
